@@ -5,15 +5,17 @@
 set -u
 OUT=$1; K=$2; ID=$3; PROP=$4; shift 4; CHECKS="$PROP $*"
 export GOFLAGS=-mod=mod GOPROXY=off
-V=/verif
-cd /repo || exit 2
-if [ -n "$(git status --porcelain)" ]; then echo "/repo not clean"; exit 2; fi
+V=/verif                     # where confirmed seeds are kept
+R=${SEED_REPO:-/repo}        # the tree that is patched (a worktree of /repo to leave /repo alone)
+CV=${SEED_VERIF:-/verif}     # the copy of /verif whose checks run (its engine must point at $R)
+cd $R || exit 2
+if [ -n "$(git status --porcelain)" ]; then echo "$R not clean"; exit 2; fi
 PATCH=$OUT/patch$K.diff
 APPLY="git apply"
 if ! git apply --check "$PATCH" 2>/dev/null; then
   if patch -p1 --dry-run -F3 -s < "$PATCH" >/dev/null 2>&1; then APPLY="patch -p1 -F3 -s -i"; else echo "SEED $ID patch does not apply"; exit 2; fi
 fi
-S=$(mktemp -d /var/tmp/seed.XXXXXX); trap 'git -C /repo checkout -- . ; git -C /repo clean -fdq; rm -rf "$S"' EXIT
+S=$(mktemp -d /var/tmp/seed.XXXXXX); trap 'git -C $R checkout -- . ; git -C $R clean -fdq; rm -rf "$S"' EXIT
 go build -o $S/crd-clean ./cmd || exit 2
 $APPLY "$PATCH"
 find . -name '*.orig' -delete
@@ -28,7 +30,7 @@ if [ -f $OUT/demo$K.sh ]; then
 fi
 RES=""
 for c in $CHECKS; do
-  (cd $V && timeout 1500 ./check $c quick > $S/$c.log 2>&1); rc=$?
+  (cd $CV && VERIF_REPO=$R timeout 1500 ./check $c quick > $S/$c.log 2>&1); rc=$?
   cls=$(grep -E "^FAIL class=" $S/$c.log | sed 's/ cases=.*//;s/FAIL class=//' | head -4 | tr '\n' ' ')
   RES="$RES $c=$rc[$cls]"
 done
